@@ -9,4 +9,5 @@ for d in sorted(glob.glob("/verif/seeded/*")):
         continue
     r = subprocess.run(["/verif/tools/seedrun.py", os.path.join(d, "patch.diff"), "-", m["breaks_property"]], capture_output=True, text=True)
     line = [l for l in r.stdout.splitlines() if l.startswith("[")]
-    print(m["id"], "->", line[0] if line else r.stdout[-200:], flush=True)
+    note = "   (expected: " + m["disposition"][:60] + "...)" if m.get("disposition") else ""
+    print(m["id"], "->", (line[0] if line else r.stdout[-200:]) + note, flush=True)
